@@ -79,10 +79,10 @@ def _check_static(path, mapping, f):
     return ''
 
 
-@cond(quick=dict(S=3, timeout=170, parts=dict(M=[0, 1, 5, 6])), thorough=dict(S=4, timeout=2400, parts=dict(M=list(range(len(MAPS))))))
+@cond(quick=dict(S=3, SM=2, timeout=170, parts=dict(M=[0, 1, 5, 6])), thorough=dict(S=3, SM=2, timeout=900, parts=dict(M=list(range(len(MAPS))))))
 def static_resolution(tail: str, mi: int) -> str:
     """
-    pre: mi == P.M and len(tail) <= P.S
+    pre: mi == P.M and len(tail) <= (P.S if P.M in (0, 1, 5, 6) else P.SM)
     post: _ == ''
     """
     path = '/' + tail
@@ -113,7 +113,7 @@ def _static_table(mi, ki, s1, s2, s3, n, slash):
     return fail(PROP, 'STATIC-RESOLUTION', m) if m else ''
 
 
-@cond(quick=dict(N=2, timeout=170, parts=dict(M=list(range(len(MAPS))))), thorough=dict(N=3, timeout=1200, parts=dict(M=list(range(len(MAPS))))))
+@cond(quick=dict(N=2, timeout=170, parts=dict(M=list(range(len(MAPS))))), thorough=dict(N=2, timeout=600, parts=dict(M=list(range(len(MAPS))))))
 def static_resolution_segments(mi: int, ki: int, s1: int, s2: int, s3: int, n: int, slash: bool) -> str:
     """
     pre: mi == P.M and 0 <= ki < len(KEYS) and 0 <= s1 < len(SEGS) and 0 <= s2 < len(SEGS) and 0 <= s3 < len(SEGS)
@@ -269,7 +269,7 @@ def _asgi(path, ei, mi, has_app, exists, scope_type):
     return ''
 
 
-@cond(quick=dict(S=1, timeout=170, parts=dict(G=[0, 1], E=[0, 2, 3])), thorough=dict(S=3, timeout=1800, parts=dict(G=[0, 1], E=list(range(len(ENDPOINTS))))))
+@cond(quick=dict(S=1, timeout=170, parts=dict(G=[0, 1], E=[0, 2, 3])), thorough=dict(S=1, timeout=900, parts=dict(G=[0, 1], E=list(range(len(ENDPOINTS))))))
 def routing(g: int, pi: int, tail: str, ei: int, mi: int, has_app: bool, exists: bool, ws_scope: bool) -> str:
     """
     pre: g == P.G and 0 <= pi < len(PREFIXES) and len(tail) <= P.S and 0 <= ei < len(ENDPOINTS) and -1 <= mi <= 0
